@@ -1,11 +1,15 @@
 // Replays the verdict table of spec/DbdRules.tla on the real library (property C06).
-// stdin lines:  <iso|''> <level> <mode> <none|valid|inverted> <lib 0|1|2> <plumbing 0|1|2>     (2 = unspecified by the rules)
+// stdin lines:  <iso|''> <level> <mode> <none|valid|inverted|beyond> <lib 0|1|2> <plumbing 0|1|2> [q ek z a levelE]
+//               (2 = unspecified by the rules; the optional tail is the isotope's table row for the plumbing layer to be compared with)
 // For each request: decay0_generator::initialize must throw / not throw as the table says; a refused request must leave
 // the generator un-initialised and shoot must throw; an accepted one must yield events (their validity is checked:
 // particle count, species, finite momenta/times, time order, label).  For window "none" the plumbing layer
 // (genbbsub, initialisation call) is asked as well.
 #include <cmath>
+#include <csignal>
 #include <cstdlib>
+#include <sys/wait.h>
+#include <unistd.h>
 #include <map>
 #include <set>
 
@@ -42,10 +46,52 @@ int main()
   auto report = [&](const std::string & key, const std::string & what) {
     if (keys.insert(key).second) viols.push_back(key + "\t" + what);
   };
-  while (std::cin >> iso >> level >> mode >> win >> elib >> eplumb) {
+  std::string line;
+  while (std::getline(std::cin, line)) {
+    std::istringstream ls(line);
+    if (!(ls >> iso >> level >> mode >> win >> elib >> eplumb)) continue;
+    double tq = -1, tek = -1, tz = 0, ta = 0;
+    int tle = -1;
+    bool have_table = bool(ls >> tq >> tek >> tz >> ta >> tle);
     if (iso == "''") iso.clear();
     n++;
     std::string tag = (iso.empty() ? "''" : iso) + "/" + std::to_string(level) + "/" + std::to_string(mode) + "/" + win;
+    // ---- a window that lies wholly above the spectrum is expected to be refused; an implementation that accepts it may
+    //      never return from initialize/shoot: such requests run in a child with a 4 s watchdog
+    if (win == "beyond") {
+      std::cout.flush();
+      pid_t pid = fork();
+      if (pid == 0) {
+        alarm(4);
+        int code = 0;
+        try {
+          bxdecay0::decay0_generator g;
+          vh::stream prng(n * 7919 + 1);
+          g.set_decay_category(bxdecay0::decay0_generator::DECAY_CATEGORY_DBD);
+          g.set_decay_isotope(iso);
+          g.set_decay_dbd_level(level);
+          g.set_decay_dbd_mode((bxdecay0::dbd_mode_type)mode);
+          g.set_decay_dbd_esum_range(5.0, 6.0);
+          g.initialize(prng);
+          code = 10; // accepted
+          bxdecay0::event ev;
+          g.shoot(prng, ev);
+        } catch (std::exception &) {
+          if (code == 10) code = 11; // accepted, then shoot throws
+        }
+        _exit(code);
+      }
+      int st = 0;
+      waitpid(pid, &st, 0);
+      nrej++;
+      if (WIFSIGNALED(st)) {
+        report(std::string(WTERMSIG(st) == SIGALRM ? "hang:" : "crash:") + tag,
+               std::string("a window above the available energy makes initialize/shoot ") + (WTERMSIG(st) == SIGALRM ? "run for ever" : "crash") + " instead of being refused");
+      } else if (WEXITSTATUS(st) != 0) {
+        report("library-accepts:" + tag, "the rules refuse a window that lies wholly above the available energy, decay0_generator::initialize succeeds");
+      }
+      continue;
+    }
     // ---- library layer
     {
       bxdecay0::decay0_generator g;
@@ -59,6 +105,7 @@ int main()
         g.set_decay_dbd_mode((bxdecay0::dbd_mode_type)mode);
         if (win == "valid") g.set_decay_dbd_esum_range(0.0, 5.0);
         if (win == "inverted") g.set_decay_dbd_esum_range(2.0, 1.0);
+        if (win == "beyond") g.set_decay_dbd_esum_range(5.0, 6.0); // above every tabulated Q value
         g.initialize(prng);
       } catch (std::exception & e) {
         threw = true;
@@ -120,6 +167,15 @@ int main()
         threw = true;
       }
       bool acc = !threw && ier == 0;
+      if (acc && have_table) {
+        // the isotope table of the port must be the table of the reference (DbdTable.tla)
+        auto differs = [](double x, double y) { return std::fabs(x - y) > 1e-9 * (1.0 + std::fabs(y)); };
+        if (differs(pars.Qbb, tq)) report("table:" + iso + ":Q", "Q value " + std::to_string(pars.Qbb) + " MeV, reference table " + std::to_string(tq));
+        if (differs(pars.EK, tek)) report("table:" + iso + ":EK:level" + std::to_string(level), "EK " + std::to_string(pars.EK) + ", reference table " + std::to_string(tek));
+        if (differs(pars.Zdbb, tz)) report("table:" + iso + ":Z", "daughter Z " + std::to_string(pars.Zdbb) + ", reference table " + std::to_string(tz));
+        if (differs(pars.Adbb, ta)) report("table:" + iso + ":A", "A " + std::to_string(pars.Adbb) + ", reference table " + std::to_string(ta));
+        if (pars.levelE != tle) report("table:" + iso + ":level" + std::to_string(level), "level energy " + std::to_string(pars.levelE) + " keV, reference table " + std::to_string(tle));
+      }
       if (acc != (eplumb == 1))
         report(std::string(acc ? "plumbing-accepts:" : "plumbing-refuses:") + tag,
                std::string("genbbsub(INIT) ") + (acc ? "accepts" : "refuses") + " a request the rules " + (eplumb == 1 ? "accept" : "refuse"));
